@@ -511,6 +511,13 @@ def prepare(run, cases):
     return recs
 
 
+def restart_pool():
+    global _POOL
+    import multiprocessing
+    shutdown()
+    _POOL = multiprocessing.get_context("fork").Pool(common.NCPU)
+
+
 def shutdown():
     global _POOL
     if _POOL is not None:
@@ -576,25 +583,26 @@ def header():
 
 
 def sample_ks(info, rng, thorough, budget):
+    """-> (structural positions, other sampled positions)"""
     n = len(info["kinds"])
-    if thorough or n <= budget:
-        return list(range(n))
-    must = set([0, 1, n - 1, n - 2])
+    must = set(x for x in (0, 1, n - 2, n - 1) if 0 <= x < n)
     for k, kind in enumerate(info["kinds"]):
         if kind in ("open-r", "open-w", "open-a", "close", "rename",
                     "unlink", "link", "del", "copy"):
             must.update(x for x in (k - 1, k, k + 1) if 0 <= x < n)
+    rest = [k for k in range(n) if k not in must]
+    if thorough or n <= budget:
+        return sorted(must), rest
     must = sorted(must)
     if len(must) > budget:
-        keep = set(rng.sample(must, budget - 8))
-        # never drop renames / closes of the temporary file
+        keep = set(rng.sample(must, budget))
+        # never drop renames / (re)opens of the temporary file
         for k, kind in enumerate(info["kinds"]):
             if kind in ("rename", "open-a", "open-w"):
                 keep.update(x for x in (k, k + 1) if x < n)
         must = sorted(keep)
-    rest = [k for k in range(n) if k not in set(must)]
     extra = rng.sample(rest, max(0, min(len(rest), budget - len(must))))
-    return sorted(set(must) | set(extra))
+    return must, sorted(extra)
 
 
 def judge(run, idx, res):
@@ -731,21 +739,38 @@ def _run(run):
             run.oracle_failure(cd, "; ".join(fails), None)
 
     _tick(run, "acceptance")
+    natural_failures(run)
+    _tick(run, "natural-failures")
     # ---- 2. fault enumeration -------------------------------------------
     total_budget = 10 ** 9 if run.thorough else int(
         os.environ.get("VERIF_C10_BUDGET", "2600"))
     per_case = max(20, total_budget // (2 * max(1, ncases)))
-    jobs = []
+    first, second = [], []
     for idx, info in enumerate(INFO):
         if info["err"] is not None:
             continue
-        for k in sample_ks(info, run.rng, run.thorough, per_case):
-            for kind in KINDS:
-                jobs.append((idx, k, kind))
-    # long-running cases first
-    jobs.sort(key=lambda j: -INFO[j[0]]["secs"])
-    results = _POOL.map(fault_job, jobs, chunksize=4)
-    _tick(run, "fault-runs(%d)" % len(jobs))
+        must, extra = sample_ks(info, run.rng, run.thorough, per_case)
+        first += [(idx, k, kind) for k in must for kind in KINDS]
+        second += [(idx, k, kind) for k in extra for kind in KINDS]
+    # structural positions of all cases first, then the rest, each in random
+    # order: whatever part is done when the time is up is a fair sample
+    run.rng.shuffle(first)
+    run.rng.shuffle(second)
+    jobs = first + second
+    limit = None if run.thorough else float(
+        os.environ.get("VERIF_C10_FAULT_SECS", "50"))
+    t_start = time.time()
+    results = []
+    for res in _POOL.imap(fault_job, jobs, chunksize=2):
+        results.append(res)
+        if limit is not None and time.time() - t_start > limit:
+            break
+    if len(results) < len(jobs):
+        run.notes.append("fault enumeration stopped after %.0f s: %d of %d "
+                         "sampled fault runs done (machine load)" % (
+                             limit, len(results), len(jobs)))
+        restart_pool()
+    _tick(run, "fault-runs(%d of %d)" % (len(results), len(jobs)))
     rendered = []
     for res in results:
         idx, k, kind = res["job"]
@@ -787,8 +812,6 @@ def _run(run):
                          what="state after the fault differs from the "
                               "model's prediction [out_i, tmp_i exists ..., "
                               "inputs unchanged] at %s" % op_desc(info, k))
-    natural_failures(run)
-    _tick(run, "natural-failures")
 
 
 # --------------------------------------------------------------------------
